@@ -453,7 +453,10 @@ class Node(object):
             for server in self.servers:
                 self.all_servers_total.append(server.total_time)
                 self.all_servers_busy.append(server.busy_time)
-            self.server_utilisation = sum(self.all_servers_busy) / sum(self.all_servers_total)
+            if sum(self.all_servers_total) > 0:
+                self.server_utilisation = sum(self.all_servers_busy) / sum(self.all_servers_total)
+            else:
+                self.server_utilisation = None
 
     def finish_service(self):
         """
